@@ -183,46 +183,7 @@ def run(ctx):
         zero = aggregates(he, "task::Writes", "Zero")
         r.check(any(any(d.startswith("linked_from(") or "linked_from" in d and l == "None" for d, l, _ in dom_guards(he, z[0])) for z in zero), "handle_event/no-links=>discard", where(he),
                 "an event for a lane without links is discarded (Writes::Zero)")
-        # implicit link: on !is_linked: links.insert and push_special(Linked) dominate push_write; order of the pair (w1, w2)
-        ins = [c for c in he.calls if c.is_method("links::Links", "insert")]
-        sp = [c for c in he.calls if c.name == "push_special"]
-        pws = [c for c in he.calls if c.name == "push_write"]
-        if len(ins) != 1 or len(sp) != 1:
-            raise AnchorMissing("handle_event: implicit link sites (links.insert %d, push_special %d)" % (len(ins), len(sp)))
-        # the test that decides "not linked yet" has to be about this (lane, remote) pair: a remote that is linked to
-        # another lane only must still get `linked` for this one before any of its frames
-        lane_d, remote_d = describe_operand(he, ins[0].args[1]), describe_operand(he, ins[0].args[2])
-        g = dom_guards(he, ins[0].block)
-        def all_args(d):
-            """all (nested) call arguments of a rendered expression"""
-            out, depth, cur, stack = [], 0, "", []
-            for ch in d:
-                if ch == "(":
-                    stack.append(cur)
-                    cur = ""
-                elif ch == ")":
-                    if cur.strip():
-                        out.append(cur.strip())
-                    cur = stack.pop() + "()" if stack else ""
-                elif ch == "," :
-                    if cur.strip():
-                        out.append(cur.strip())
-                    cur = ""
-                else:
-                    cur += ch
-            return out
-        pair_tests = [(d, l) for d, l, _ in g if "links" in d and lane_d in all_args(d) and remote_d in all_args(d)]
-        r.check(len(pair_tests) >= 1 and all(l == "false" for d, l in pair_tests if d.startswith("is_linked(")), "handle_event/implicit-link-iff-pair-not-linked", ins[0].loc(),
-                "links.insert + Linked exactly when this (remote, lane) pair is not linked (%s)" % (pair_tests[0][0][:50] if pair_tests else ""),
-                "the implicit link is decided by %s, which does not test the (remote %s, lane %s) pair: a remote linked to another lane gets this lane's frames without `linked` and is never recorded as linked" % ([(d[:50], l) for d, l, _ in g if "links" in d or "link" in d][-2:], remote_d, lane_d))
-        known = [(d, l) for d, l, _ in g if d.startswith("has_remote(") and remote_d in all_args(d)]
-        r.check(any(l == "true" for d, l in known), "handle_event/implicit-link-only-for-attached-remote", ins[0].loc(), "the implicit link is recorded only for a remote the tracker still knows (has_remote)",
-                "links.insert for the target of a response is not guarded by remote_tracker.has_remote: the late response of a remote that was removed creates a link that nothing can ever remove (and that is counted)")
-        r.check(all(any(dd == d and ll == l for dd, ll, _ in dom_guards(he, sp[0].block)) for d, l in pair_tests), "handle_event/Linked-under-the-same-test", sp[0].loc(), "the Linked frame is queued under the same test as the registration")
-        first = [c for c in pws if he.dominates(sp[0].block, c.block)]
-        r.check(len(first) == 1 and he.dominates(ins[0].block, sp[0].block), "handle_event/linked-before-data", sp[0].loc(), "insert, then push_special(Linked), then push_write on the implicit-link path",
-                "data is queued before the implicit Linked")
-        r.check("SpecialAction::Linked(id)" in describe_operand(he, sp[0].args[1]), "handle_event/linked-same-lane", sp[0].loc(), "the implicit Linked names the event's lane")
+        sp, pws = uplinks.implicit_link_rule(r, ctx, rt, he)
         fr = [c for c in he.calls if c.via_name == "from" and "Writes" in c.defpath and he.dominates(sp[0].block, c.block)]
         if fr:
             d = describe_operand(he, fr[0].args[0])
@@ -283,3 +244,7 @@ def run(ctx):
         lf = ctx.saw(rt.fn(name="linked_from", self_adt=LK))
         r.check(any(c.name == "get" and ".forward" in describe_operand(lf, c.args[0]) for c in lf.calls), "linked_from/reads-forward", where(lf), "the broadcast targets of a lane come from the forward index")
 
+    with ctx.rule("C04.R12", "T3", "a frame recorded for a link while the remote's writer is busy is scheduled (shared queue discipline of Uplinks, C01.R5)", floor=20) as r:
+        # `synced` answers a sync request exactly once: a marker recorded on the lane's uplink entry must put the lane into the write queue, or the
+        # request is never answered on this link and the stale marker produces a `synced` nobody asked for on a later one
+        uplinks.queued_flag_discipline(r, ctx)
